@@ -442,6 +442,9 @@ class BezierPath(BooleanOperationsMixin, SampleMixin, object):
         # Add a line between if they don't match up
         if segs1[-1].end != segs2[0].start:
             segs1.append(Line(segs1[-1].end, segs2[0].start))
+        else:
+            # Points compare equal within a tolerance: make the join exact.
+            segs2[0][0] = segs1[-1].end.clone()
 
         # XXX Check for discontinuities and harmonize if needed
 
